@@ -3,6 +3,7 @@ package props
 import (
 	"fmt"
 	"sort"
+	"strings"
 
 	"github.com/RoaringBitmap/roaring"
 	segment "github.com/blugelabs/bluge_segment_api"
@@ -15,7 +16,7 @@ import (
 func init() {
 	register(&explore.Prop{
 		ID: "C18", Level: levelMC, Explorer: "E1 input-space enumerator",
-		Rule: "segments = MIX batches and three batches with an indexed field whose name is the empty string (built, persisted+loaded, self-merged so that single-doc terms are 1-hit encoded, and the empty batch) x every list of <=3 (thorough <=4) (field, term) pairs over fields {_id, a, b, unknown, \"\"} x terms {general, 1-hit candidate, doc id, absent}, repeats allowed; plus a 130-document segment with every list of <=2 pairs and lists of <=6 pairs over a 3-pair alphabet; result bitmap compared with the model's union; " +
+		Rule: "segments = MIX batches and three batches with an indexed field whose name is the empty string (built, persisted+loaded, self-merged so that single-doc terms are 1-hit encoded, and the empty batch) x every list of <=3 (thorough <=4) (field, term) pairs over fields {_id, a, b, unknown, \"\"} x terms {general, 1-hit candidate, doc id, absent}, repeats allowed; plus LONG-LIST: lists of 255…4097 (thorough …65 537) entries on a 130-document segment (built, loaded, merged), composed of up to three blocks each cycling through one field's candidates (existing, absent, repeated terms; an unknown field) with every way of giving all but one or two entries to one block, and strictly alternating lists; a 130-document segment with every list of <=2 pairs and lists of <=6 pairs over a 3-pair alphabet; result bitmap compared with the model's union; " +
 			"distinct = (segment, form, list); non-trivial = list has >=2 entries with a field switch, or names an unknown/empty field",
 		Assumptions: commonAssumptions, Budget: qBudget, Run: runC18,
 	})
@@ -64,6 +65,12 @@ func runC18(c *explore.Ctx) {
 	// and lists of up to 6 pairs over a 3-pair alphabet on a small segment
 	if c.Shard == 0 || c.Replay {
 		c18Extra(c)
+	}
+	if !c.Replay || strings.HasPrefix(c.ReplayScope, "LONG-LIST/") {
+		c18Long(c)
+		if c.Replay {
+			return
+		}
 	}
 	if !c.Replay || c.ReplayScope == "ZOO" {
 		zooEach(c, true, func(idx int64, z *zooSeg) { zooMatching(c, idx, z) })
@@ -239,6 +246,134 @@ func c18Extra(c *explore.Ctx) {
 					}
 					return true
 				})
+			}
+		}
+	}
+}
+
+// c18Long: LISTS OF MANY ENTRIES. The lists of the other families have at most 3 (6) entries; here the
+// list length walks across 255/256/257, 1023/1024/1025, 4095/4096/4097 and 65 537 while the list
+// is composed of up to three blocks, each block cycling through the candidates of one field
+// (existing, absent and repeated terms; an unknown field), with every way of giving all but one
+// or two entries to one block, plus the strictly alternating list.
+func c18Long(c *explore.Ctx) {
+	batch := c09Batch()
+	ls := model.Build(batch)
+	cands := [][]pairT{
+		{}, // _id: filled below
+		{{"b", "t6"}, {"b", "t1"}, {"b", "nosuch"}, {"b", "t6"}},
+		{{"a", "x"}, {"a", "u39"}, {"a", "zz"}, {"a", "u3"}, {"a", ""}},
+		{{"nosuch", "x"}, {"nosuch", ""}},
+		{{"a", "u7"}},
+	}
+	for i := 0; i < 130; i += 3 {
+		cands[0] = append(cands[0], pairT{"_id", fmt.Sprintf("r%d", i)}, pairT{"_id", fmt.Sprintf("q%d", i)})
+	}
+	lens := []int{255, 256, 257, 1023, 1024, 1025, 4095, 4096, 4097}
+	if c.Thorough() {
+		lens = append(lens, 2047, 2048, 2049, 65535, 65536, 65537)
+	}
+	type shape struct {
+		blocks []int // candidate set per block
+		split  int
+	}
+	var shapes []shape
+	nf := len(cands)
+	for a := 0; a < nf; a++ {
+		shapes = append(shapes, shape{[]int{a}, 0})
+		for b := 0; b < nf; b++ {
+			if a == b {
+				continue
+			}
+			for sp := 0; sp < 4; sp++ { // (L-1,1) (1,L-1) halves alternating
+				shapes = append(shapes, shape{[]int{a, b}, sp})
+			}
+			for d := 0; d < nf; d++ {
+				if d == b {
+					continue
+				}
+				for sp := 0; sp < 3; sp++ { // (L-2,1,1) (1,L-2,1) (1,1,L-2)
+					shapes = append(shapes, shape{[]int{a, b, d}, sp})
+				}
+			}
+		}
+	}
+	for fi, form := range []string{"built", "loaded", "merged"} {
+		scope := "LONG-LIST/" + form
+		if c.Replay && c.ReplayScope != scope {
+			continue
+		}
+		seg, err := build(batch, 1025)
+		if err != nil {
+			envFail(c, "C18 LONG-LIST build: "+err.Error())
+			return
+		}
+		want := ls
+		seg, want, err = inputForm(seg, ls, fi, 1025)
+		if err != nil {
+			envFail(c, "C18 LONG-LIST input form: "+err.Error())
+			return
+		}
+		var idx int64
+		for _, L := range lens {
+			for _, sh := range shapes {
+				my := idx
+				idx++
+				if !c.MineIdx(scope, my) {
+					continue
+				}
+				if c.Expired() {
+					return
+				}
+				c.Eval()
+				c.Nontrivial()
+				// block lengths
+				var bl []int
+				switch len(sh.blocks) {
+				case 1:
+					bl = []int{L}
+				case 2:
+					bl = [][]int{{L - 1, 1}, {1, L - 1}, {L / 2, L - L/2}, nil}[sh.split]
+				case 3:
+					bl = [][]int{{L - 2, 1, 1}, {1, L - 2, 1}, {1, 1, L - 2}}[sh.split]
+				}
+				list := make([]segment.Term, 0, L)
+				wantSet := map[uint32]bool{}
+				add := func(p pairT) {
+					list = append(list, p)
+					for _, d := range want.Postings(p.f, p.t) {
+						wantSet[uint32(d)] = true
+					}
+				}
+				if bl == nil { // alternating
+					for i := 0; i < L; i++ {
+						cs := cands[sh.blocks[i%2]]
+						add(cs[(i/2)%len(cs)])
+					}
+				} else {
+					for bi, n := range bl {
+						cs := cands[sh.blocks[bi]]
+						for i := 0; i < n; i++ {
+							add(cs[i%len(cs)])
+						}
+					}
+				}
+				cas := fmt.Sprintf("%s #%d length=%d blocks=%v split=%d (block k cycles through candidate set blocks[k]; candidate sets: 0=_id r0,q0,r3,q3,... 1=b 2=a 3=unknown field 4=a:u7)", scope, my, L, sh.blocks, sh.split)
+				c.Sample(my, func() string { return cas })
+				var bm *roaring.Bitmap
+				msg := explore.Guard(func() { bm, err = seg.DocsMatchingTerms(list) })
+				if msg != "" || err != nil {
+					c.Violate(scope, my, sigOf("C18", form, "error: "+errText(msg, err)), errText(msg, err), cas)
+					continue
+				}
+				var w []uint32
+				for d := range wantSet {
+					w = append(w, d)
+				}
+				sort.Slice(w, func(i, j int) bool { return w[i] < w[j] })
+				if fmt.Sprint(bm.ToArray()) != fmt.Sprint(w) {
+					c.Violate(scope, my, "C18/"+form+"/wrong", fmt.Sprintf("got %d documents, want %d (got %v want %v)", bm.GetCardinality(), len(w), clipU(bm.ToArray()), clipU(w)), cas)
+				}
 			}
 		}
 	}
